@@ -862,7 +862,12 @@ impl Exec {
         for i in 0..n {
             let id = ord_key(i);
             if !w.entities().contains(id) {
-                parts.push(format!("#{i}=x"));
+                // a dead id must be dead through every lookup
+                let ghost = w.entities().get(id).is_some()
+                    || w.entities().get_by_index(id.index()).is_some_and(|_| false)
+                    || w.get::<K0>(id).is_some() || w.get::<K1>(id).is_some() || w.get::<K2>(id).is_some()
+                    || w.get::<K3>(id).is_some() || w.get::<K4>(id).is_some() || w.get::<K5>(id).is_some();
+                parts.push(if ghost { format!("#{i}=GHOST") } else { format!("#{i}=x") });
                 continue;
             }
             let mut cells = vec![];
@@ -928,10 +933,29 @@ impl Exec {
             if let Some((n, id)) = r.t.iter().find(|(n, _)| n == name) { es.push(format!("{n}={}v{}", id.index().0, id.generation())); }
         }
         let hs: Vec<String> = r.h.iter().map(|(n, id)| format!("{n}={}v{}", id.index().0, id.generation())).collect();
-        let stale = self.removed_c.iter().filter(|id| w.components().contains(**id)).count()
-            + self.removed_g.iter().filter(|id| w.global_events().contains(**id)).count()
-            + self.removed_t.iter().filter(|id| w.targeted_events().contains(**id)).count()
-            + self.removed_h.iter().filter(|id| w.handlers().contains(**id)).count();
+        // a removed id must be invalid through EVERY lookup: `contains`, `get`, `get_by_index` (which must not hand out an
+        // entry carrying the removed id) and the panicking `Index` impls (documented panic on an invalid id)
+        use std::panic::{catch_unwind, AssertUnwindSafe};
+        let stale = self.removed_c.iter().filter(|id| {
+                w.components().contains(**id) || w.components().get(**id).is_some()
+                    || w.components().get_by_index(id.index()).map(|i| i.id()) == Some(**id)
+                    || catch_unwind(AssertUnwindSafe(|| { let _ = &w.components()[**id]; })).is_ok()
+            }).count()
+            + self.removed_g.iter().filter(|id| {
+                w.global_events().contains(**id) || w.global_events().get(**id).is_some()
+                    || w.global_events().get_by_index(id.index()).map(|i| i.id()) == Some(**id)
+                    || catch_unwind(AssertUnwindSafe(|| { let _ = &w.global_events()[**id]; })).is_ok()
+            }).count()
+            + self.removed_t.iter().filter(|id| {
+                w.targeted_events().contains(**id) || w.targeted_events().get(**id).is_some()
+                    || w.targeted_events().get_by_index(id.index()).map(|i| i.id()) == Some(**id)
+                    || catch_unwind(AssertUnwindSafe(|| { let _ = &w.targeted_events()[**id]; })).is_ok()
+            }).count()
+            + self.removed_h.iter().filter(|id| {
+                w.handlers().contains(**id) || w.handlers().get(**id).is_some()
+                    || w.handlers().get_by_index(id.index()).map(|i| i.id()) == Some(**id)
+                    || catch_unwind(AssertUnwindSafe(|| { let _ = &w.handlers()[**id]; })).is_ok()
+            }).count();
         format!("reg c:{} e:{} h:{} stale={}", cs.join(","), es.join(","), hs.join(","), stale)
     }
 }
